@@ -48,7 +48,7 @@ CHECKS = {
                 text="12 solver classes x n in 1..12 x (nev, ncv) in [-2, n+3]^2, SVD shapes up to 6x6, square-only wrappers for every shape up to 4x4, sigma = 0 in buckling/Cayley, zero start vector, nine rules x {selection, sorting} x maxit in {0,1,30} x seven classes: outcome must be accept / std::invalid_argument exactly as documented, rejected constructions leave no live heap block, the object is usable after a rejected compute().",
                 ref="6 C12"),
     "C13": dict(cat="model_checking", tech="TLA+ design model with liveness + exhaustive token-pattern model of nev_adjusted/shift loop + TLC validation of degenerate-input runs with heap canaries",
-                text="IRSolver.tla: work bound, restart bound, dimension/shift-index ranges and termination (liveness under fairness) for all histories; NevAdjust.tla: restart size in range and every shift-loop index read in range for ALL token arrangements (ncv<=7) with a negative control; recorded runs on zero/identity/nilpotent/rank-deficient/permutation/orthogonal/skew/tied inputs, scalings 2^-26..2^26, extreme (nev,ncv), maxit from 0: no abort/assertion, documented outcome, finite results, valid operator arguments, heap canaries intact, work bound.",
+                text="IRSolver.tla: work bound, restart bound, dimension/shift-index ranges and termination (liveness under fairness) for all histories; NevAdjust.tla: restart size in range and every shift-loop index read in range for ALL token arrangements (ncv<=7) with a negative control; recorded runs on zero/identity/nilpotent/rank-deficient/permutation/orthogonal/skew/tied inputs, scalings 2^-26..2^26, extreme (nev,ncv), maxit from 0: no abort/assertion, documented outcome, finite results, valid operator arguments, heap canaries intact, work bound. Apalache discharges the restart-size range over unbounded integers (with a refuted negative control); the thorough tier adds an ASan+UBSan build of the traced harness as auxiliary observation.",
                 ref="6 C13"),
     "C14": dict(cat="model_checking", tech="fault enumeration at every operator application index, traces validated by TLC (OpThrows action), digest equality with the fault-free baseline",
                 text="For six solver classes the wrapper throws a tagged exception at application k for k over the fault-free run's applications (every 3rd/7th in quick, all and pairs in thorough): the same exception reaches the caller, the event prefix is a behaviour of the spec with OpThrows, and init(); compute() afterwards reproduces the fault-free digest; repeated identical executions leave the same number of live heap blocks.",
@@ -69,7 +69,7 @@ CHECKS = {
                 text="TLC proves 16807 is a primitive root mod 2^31-1 (single cycle) and Next = Schrage on structured samples; the real next_long_rand is walked over the whole cycle with TLC certifying every 2^21-th state and the end point; seeds of the library's forms normalise into 1..M-1; draws lie in [-0.5,0.5] and equal state/M; the start vector of default init() of three solver classes is the seed-0 stream for first, second and repeated use.",
                 ref="6 C19"),
     "C20": dict(cat="model_checking", tech="Threads.tla interleaving model over the code's location map (with negative control) + event-for-event identity of concurrent and sequential hook traces",
-                text="Design model: all interleavings of 3 solver instances; private operators and a shared product wrapper are conflict free, a shared shift-solve wrapper is not (negative control). Runs: 2/4/8/16 threads, private or one shared fresh Dense/Sparse Sym/Gen product wrapper, generic and breakdown-heavy jobs: each job's per-thread hook-event stream digest and result digest equal those of the job run alone.",
+                text="Design model: all interleavings of 3 solver instances; private operators and a shared product wrapper are conflict free, a shared shift-solve wrapper is not (negative control). Runs: 2/4/8/16 threads, private or one shared fresh Dense/Sparse Sym/Gen product wrapper, generic and breakdown-heavy jobs: each job's per-thread hook-event stream digest and result digest equal those of the job run alone. The thorough tier adds a ThreadSanitizer build of the same driver as auxiliary observation.",
                 ref="6 C20"),
 }
 
